@@ -9,6 +9,7 @@ from .engine_k import Seams, SimRandom, bind, bootstrap, rel_close
 TOL_LOG = 1e-8
 TOL_P = 1e-9
 UNDERFLOW = -690.0
+TINY = 1e-300  # below this a double is (nearly) denormal: treated like an underflowed zero
 
 
 def gen_config(rng, tier, flavor="db"):
@@ -351,14 +352,14 @@ class CallSim:
                 if lx == -math.inf or ly == -math.inf:
                     self.ctx.counters.inc("zero_density_skip")
                     continue
-                if px[al] <= 0.0:
+                if px[al] <= TINY:
                     theo = min(0.0, ly - lx) - math.log(nh - 1)
                     if theo > UNDERFLOW:
                         self.viol("detailed_balance_call_mh", "forward probability 0, reference log p=%.3f" % theo, x=x, position=k, allele=al)
                     self.ctx.counters.inc("underflow_skip")
                     continue
                 py = self._probe_mh(a, y, k)
-                if py[cur] <= 0.0:
+                if py[cur] <= TINY:
                     theo = lx + math.log(px[al]) - ly
                     if theo > UNDERFLOW:
                         self.viol("detailed_balance_call_mh", "reverse probability 0, reference log p=%.3f" % theo, x=x, position=k, allele=al)
